@@ -445,6 +445,693 @@ example : Gen.Fn.pdu_param_decode [8, 2, 1, 0x75] 0 = .ok (8, 2, .tuple [.int 1,
 example : Gen.Fn.pdu_param_decode [2, 1, 0xFF] 0 = .error .decodeError := by rfl
 example : IsBytes [2, 2, 0xFF, 0xFF] := by decide
 
+/-! ## PAX, CONNECT, CC, SNL, DPS, AGF: `encode` and `__len__`
+
+Optional integer fields of the model (`Option Nat`) are the optional Python ints `oi o`; the SDREQ/SDRES lists are
+`sdreqI`/`sdresI`; `AggregatedFrame.encode` is translated with the encodings of the aggregated PDUs as a parameter
+(`[pdu.encode() for pdu in self._aggregate]`, dynamic dispatch) and is `Impl.encode (.agf ..)` when those are the
+model's encodings (`agf_encode_model`). -/
+
+/-- optional natural field of the model as the optional Python int of the source -/
+def oi (o : Option Nat) : Option Int := o.map (fun (n : Nat) => (n : Int))
+
+theorem enc_int_1 (v : Nat) : Gen.Fn.pdu_param_encode_int 1 v = encB 1 v := param_encode_int_B 1 v (by simp)
+theorem enc_int_4 (v : Nat) : Gen.Fn.pdu_param_encode_int 4 v = encB 4 v := param_encode_int_B 4 v (by simp)
+theorem enc_int_5 (v : Nat) : Gen.Fn.pdu_param_encode_int 5 v = encB 5 v := param_encode_int_B 5 v (by simp)
+theorem enc_int_7 (v : Nat) : Gen.Fn.pdu_param_encode_int 7 v = encB 7 v := param_encode_int_B 7 v (by simp)
+theorem enc_int_2 (v : Nat) : Gen.Fn.pdu_param_encode_int 2 v = encH 2 v := param_encode_int_H 2 v (by simp)
+theorem enc_int_3 (v : Nat) : Gen.Fn.pdu_param_encode_int 3 v = encH 3 v := param_encode_int_H 3 v (by simp)
+theorem enc_bytes_6 (v : Bytes) : Gen.Fn.pdu_param_encode_bytes 6 v = encS 6 v := param_encode_bytes_S 6 v (by simp)
+theorem enc_bytes_10 (v : Bytes) : Gen.Fn.pdu_param_encode_bytes 10 v = encS 10 v := param_encode_bytes_S 10 v (by simp)
+theorem enc_bytes_11 (v : Bytes) : Gen.Fn.pdu_param_encode_bytes 11 v = encS 11 v := param_encode_bytes_S 11 v (by simp)
+
+theorem pax_encode_bridge (d s : Nat) (ver miux wks lto opt : Option Nat) :
+    Gen.Fn.pdu_pax_encode 1 d s (oi ver) (oi miux) (oi wks) (oi lto) (oi opt)
+      = encodeS (.pax d s ver miux wks lto opt) := by
+  unfold Gen.Fn.pdu_pax_encode
+  simp only [encodeS]
+  have hh := encode_header_bridge 1 d s
+  simp only [show ((1 : Nat) : Int) = 1 from rfl] at hh
+  rw [hh]
+  by_cases h0 : (d ≠ 0 ∨ s ≠ 0)
+  · have : ((d : Int) ≠ 0 ∨ (s : Int) ≠ 0) := by omega
+    simp [h0, this]
+  · have : ¬ ((d : Int) ≠ 0 ∨ (s : Int) ≠ 0) := by omega
+    simp only [h0, this, if_false]
+    cases encodeHeader 1 d s with
+    | error e => rfl
+    | ok h =>
+      simp only [Py.bind_ok]
+      cases ver <;> cases miux <;> cases wks <;> cases lto <;> cases opt <;>
+        simp [oi, optTlv, enc_int_1, enc_int_2, enc_int_3, enc_int_4, enc_int_7, bind_assoc]
+
+theorem pax_len_bridge (d s : Nat) (ver miux wks lto opt : Option Nat) :
+    Gen.Fn.pdu_pax_len (oi ver) (oi miux) (oi wks) (oi lto) (oi opt) = (lenS (.pax d s ver miux wks lto opt) : Nat) := by
+  unfold Gen.Fn.pdu_pax_len
+  simp only [lenS]
+  cases ver <;> cases miux <;> cases wks <;> cases lto <;> cases opt <;> simp [oi, optLen] <;> omega
+
+/-- the `if self.miu and self.miu > 128` / `if self.rw is not None and self.rw != 1` TLVs of CONNECT and CC -/
+theorem miu_rw_step (miu rw : Nat) (h : Bytes) {β} (k : Bytes → Py β) :
+    ((if (((miu : Int) ≠ 0) ∧ ((miu : Int) > 128)) then
+        (Gen.Fn.pdu_param_encode_int 2 ((miu : Int) - 128) >>= fun t2 => Except.ok (h ++ t2)) else Except.ok h) >>= fun data_2 =>
+      (if (True ∧ ((rw : Int) ≠ 1)) then
+        (Gen.Fn.pdu_param_encode_int 5 rw >>= fun t3 => Except.ok (data_2 ++ t3)) else Except.ok data_2) >>= k)
+    = ((if miu ≠ 0 ∧ miu > 128 then encH 2 (miu - 128) else pure []) >>= fun a =>
+       (if rw ≠ 1 then encB 5 rw else pure []) >>= fun b => k (h ++ a ++ b)) := by
+  simp only [true_and]
+  by_cases h1 : miu ≠ 0 ∧ miu > 128
+  · have h1' : (((miu : Int) ≠ 0) ∧ ((miu : Int) > 128)) := by omega
+    have e : (miu : Int) - 128 = ((miu - 128 : Nat) : Int) := by omega
+    rw [if_pos h1', if_pos h1, e, enc_int_2]
+    by_cases h2 : rw ≠ 1
+    · have h2' : ((rw : Int) ≠ 1) := by omega
+      rw [if_pos h2]
+      simp only [if_pos h2', enc_int_5, bind_assoc, Py.bind_ok]
+    · have h2' : ¬ ((rw : Int) ≠ 1) := by omega
+      rw [if_neg h2]
+      simp only [if_neg h2', bind_assoc, Py.bind_ok, Py.pure_eq, List.append_nil]
+  · have h1' : ¬ (((miu : Int) ≠ 0) ∧ ((miu : Int) > 128)) := by omega
+    rw [if_neg h1', if_neg h1]
+    by_cases h2 : rw ≠ 1
+    · have h2' : ((rw : Int) ≠ 1) := by omega
+      rw [if_pos h2]
+      simp only [if_pos h2', enc_int_5, bind_assoc, Py.bind_ok, Py.pure_eq, List.append_nil]
+    · have h2' : ¬ ((rw : Int) ≠ 1) := by omega
+      rw [if_neg h2]
+      simp only [if_neg h2', Py.bind_ok, Py.pure_eq, List.append_nil]
+
+theorem cc_encode_bridge (d s miu rw : Nat) :
+    Gen.Fn.pdu_cc_encode 6 d s miu rw = encodeS (.cc d s miu rw) := by
+  unfold Gen.Fn.pdu_cc_encode
+  simp only [encodeS]
+  have hh := encode_header_bridge 6 d s
+  simp only [show ((6 : Nat) : Int) = 6 from rfl] at hh
+  rw [hh]
+  cases encodeHeader 6 d s with
+  | error e => rfl
+  | ok h =>
+    simp only [Py.bind_ok]
+    have := miu_rw_step miu rw h (fun x => (Except.ok x : Py Bytes))
+    simpa using this
+
+theorem cc_len_bridge (d s miu rw : Nat) : Gen.Fn.pdu_cc_len miu rw = (lenS (.cc d s miu rw) : Nat) := by
+  unfold Gen.Fn.pdu_cc_len
+  simp only [lenS]
+  have h1' : ((((miu : Int) ≠ 0) ∧ ((miu : Int) > 128)) ↔ (miu ≠ 0 ∧ miu > 128)) := by omega
+  have h2' : ((((rw : Int) ≠ 1)) ↔ rw ≠ 1) := by omega
+  simp only [true_and, h1', h2']
+  by_cases h1 : miu ≠ 0 ∧ miu > 128 <;> by_cases h2 : rw ≠ 1
+  · rw [if_pos h1, if_pos h2, if_pos h1, if_pos h2]; rfl
+  · rw [if_pos h1, if_neg h2, if_pos h1, if_neg h2]; rfl
+  · rw [if_neg h1, if_pos h2, if_neg h1, if_pos h2]; rfl
+  · rw [if_neg h1, if_neg h2, if_neg h1, if_neg h2]; rfl
+
+/-- the optional octet string TLVs (`if self.sn:` - None and the empty string are skipped), `some` case -/
+theorem truthy_some (t : Nat) (gt : Int) (hg : ∀ v, Gen.Fn.pdu_param_encode_bytes gt v = encS t v) (v h : Bytes) :
+    (if v ≠ [] then (Gen.Fn.pdu_param_encode_bytes gt v >>= fun t4 => Except.ok (h ++ t4)) else (Except.ok h : Py Bytes))
+    = (truthyTlv t (some v) >>= fun c => Except.ok (h ++ c)) := by
+  by_cases hv : v = []
+  · subst hv; simp [truthyTlv]
+  · have : v.isEmpty = false := by cases v <;> simp_all
+    simp only [hv, ne_eq, not_false_eq_true, if_true, hg, truthyTlv, this, Bool.false_eq_true, if_false]
+
+theorem truthy_len_some (v : Bytes) :
+    ((if v ≠ [] then 2 + PyFn.len v else 0 : Int)) = ((truthyLen (some v) : Nat) : Int) := by
+  by_cases hv : v = []
+  · subst hv; rfl
+  · have : v.isEmpty = false := by cases v <;> simp_all
+    simp [truthyLen, hv, this, PyFn.len_eq]
+
+theorem connect_encode_bridge (d s miu rw : Nat) (sn : Option Bytes) :
+    Gen.Fn.pdu_connect_encode 4 d s miu rw sn = encodeS (.connect d s miu rw sn) := by
+  unfold Gen.Fn.pdu_connect_encode
+  simp only [encodeS]
+  have hh := encode_header_bridge 4 d s
+  simp only [show ((4 : Nat) : Int) = 4 from rfl] at hh
+  rw [hh]
+  cases encodeHeader 4 d s with
+  | error e => rfl
+  | ok h =>
+    simp only [Py.bind_ok]
+    rw [miu_rw_step miu rw h]
+    congr 1; funext a; congr 1; funext b
+    cases sn with
+    | none => simp [truthyTlv]
+    | some v =>
+      simp only []
+      rw [truthy_some 6 6 enc_bytes_6 v (h ++ a ++ b)]
+      simp [bind_assoc]
+
+theorem connect_len_bridge (d s miu rw : Nat) (sn : Option Bytes) :
+    Gen.Fn.pdu_connect_len miu rw sn = (lenS (.connect d s miu rw sn) : Nat) := by
+  unfold Gen.Fn.pdu_connect_len
+  simp only [lenS]
+  have h1' : ((((miu : Int) ≠ 0) ∧ ((miu : Int) > 128)) ↔ (miu ≠ 0 ∧ miu > 128)) := by omega
+  have h2' : ((((rw : Int) ≠ 1)) ↔ rw ≠ 1) := by omega
+  simp only [true_and, h1', h2']
+  cases sn with
+  | none =>
+    simp only [truthyLen]
+    by_cases h1 : miu ≠ 0 ∧ miu > 128 <;> by_cases h2 : rw ≠ 1
+    · rw [if_pos h1, if_pos h2, if_pos h1, if_pos h2]; omega
+    · rw [if_pos h1, if_neg h2, if_pos h1, if_neg h2]; omega
+    · rw [if_neg h1, if_pos h2, if_neg h1, if_pos h2]; omega
+    · rw [if_neg h1, if_neg h2, if_neg h1, if_neg h2]; omega
+  | some v =>
+    simp only []
+    rw [truthy_len_some v]
+    by_cases h1 : miu ≠ 0 ∧ miu > 128 <;> by_cases h2 : rw ≠ 1
+    · rw [if_pos h1, if_pos h2, if_pos h1, if_pos h2]; omega
+    · rw [if_pos h1, if_neg h2, if_pos h1, if_neg h2]; omega
+    · rw [if_neg h1, if_pos h2, if_neg h1, if_pos h2]; omega
+    · rw [if_neg h1, if_neg h2, if_neg h1, if_neg h2]; omega
+
+theorem dps_encode_bridge (d s : Nat) (ecpk rn : Option Bytes) :
+    Gen.Fn.pdu_dps_encode 10 d s ecpk rn = encodeS (.dps d s ecpk rn) := by
+  unfold Gen.Fn.pdu_dps_encode
+  simp only [encodeS]
+  have hh := encode_header_bridge 10 d s
+  simp only [show ((10 : Nat) : Int) = 10 from rfl] at hh
+  rw [hh]
+  by_cases h0 : (d ≠ 0 ∨ s ≠ 0)
+  · have : ((d : Int) ≠ 0 ∨ (s : Int) ≠ 0) := by omega
+    simp [h0, this]
+  · have : ¬ ((d : Int) ≠ 0 ∨ (s : Int) ≠ 0) := by omega
+    simp only [h0, this, if_false]
+    cases encodeHeader 10 d s with
+    | error e => rfl
+    | ok h =>
+      simp only [Py.bind_ok]
+      cases ecpk <;> cases rn <;> simp [truthyTlv, truthy_some 10 10 enc_bytes_10, truthy_some 11 11 enc_bytes_11, bind_assoc]
+
+theorem dps_len_bridge (d s : Nat) (ecpk rn : Option Bytes) :
+    Gen.Fn.pdu_dps_len ecpk rn = (lenS (.dps d s ecpk rn) : Nat) := by
+  unfold Gen.Fn.pdu_dps_len
+  simp only [lenS]
+  cases ecpk <;> cases rn <;> simp only [truthy_len_some, truthyLen] <;> omega
+
+
+/-- `for x in xs: data += enc(x)` -/
+theorem forM_enc {α β} (g : β → α) (genc : α → Py Bytes) (enc : β → Py Bytes) (hg : ∀ y, genc (g y) = enc y)
+    (ys : List β) : ∀ data : Bytes,
+    PyFn.forM (ys.map g) data (fun d x => genc x >>= fun t => Except.ok (d ++ t))
+      = (encList enc ys >>= fun a => Except.ok (data ++ a)) := by
+  induction ys with
+  | nil => intro data; simp [PyFn.forM, encList]
+  | cons y t ih =>
+    intro data
+    simp only [List.map_cons, PyFn.forM, encList, hg]
+    cases enc y with
+    | error e => rfl
+    | ok a =>
+      simp only [Py.bind_ok]
+      rw [ih (data ++ a)]
+      cases encList enc t with
+      | error e => rfl
+      | ok b => simp
+
+/-- the SDREQ / SDRES lists of the model as the lists of Python tuples -/
+def sdreqI (l : List (Nat × Bytes)) : List (Int × Bytes) := l.map (fun r => ((r.1 : Int), r.2))
+def sdresI (l : List (Nat × Nat)) : List (Int × Int) := l.map (fun r => ((r.1 : Int), (r.2 : Int)))
+
+theorem snl_encode_bridge (d s : Nat) (sdreq : List (Nat × Bytes)) (sdres : List (Nat × Nat)) :
+    Gen.Fn.pdu_snl_encode 9 d s (sdreqI sdreq) (sdresI sdres) = encodeS (.snl d s sdreq sdres) := by
+  unfold Gen.Fn.pdu_snl_encode
+  simp only [encodeS]
+  have hh := encode_header_bridge 9 d s
+  simp only [show ((9 : Nat) : Int) = 9 from rfl] at hh
+  rw [hh]
+  cases encodeHeader 9 d s with
+  | error e => rfl
+  | ok h =>
+    simp only [Py.bind_ok, sdreqI, sdresI]
+    rw [forM_enc (fun (r : Nat × Bytes) => ((r.1 : Int), r.2)) (Gen.Fn.pdu_param_encode_sdreq 8) encSdreq
+      (fun y => param_encode_sdreq_bridge y.1 y.2) sdreq h]
+    simp only [bind_assoc, Py.bind_ok]
+    congr 1; funext a
+    rw [forM_enc (fun (r : Nat × Nat) => ((r.1 : Int), (r.2 : Int))) (Gen.Fn.pdu_param_encode_sdres 9) encSdres
+      (fun y => param_encode_sdres_bridge y.1 y.2) sdres (h ++ a)]
+    simp [bind_assoc]
+
+theorem sum_map_len (l : List (Nat × Bytes)) :
+    PyFn.sum (List.map (fun (r : Int × Bytes) => 3 + PyFn.len r.2) (sdreqI l)) = ((sumMap (fun r => 3 + r.2.length) l : Nat) : Int) := by
+  have gen : ∀ (acc : Int), List.foldl (· + ·) acc (List.map (fun (r : Int × Bytes) => 3 + PyFn.len r.2) (sdreqI l))
+      = acc + ((sumMap (fun r => 3 + r.2.length) l : Nat) : Int) := by
+    induction l with
+    | nil => intro acc; simp [sdreqI, sumMap]
+    | cons x t ih =>
+      intro acc
+      simp only [sdreqI, List.map_cons, List.foldl_cons, sumMap] at ih ⊢
+      rw [ih]; simp only [PyFn.len_eq]; omega
+  unfold PyFn.sum
+  rw [gen 0]; omega
+
+theorem snl_len_bridge (d s : Nat) (sdreq : List (Nat × Bytes)) (sdres : List (Nat × Nat)) :
+    Gen.Fn.pdu_snl_len (sdreqI sdreq) (sdresI sdres) = (lenS (.snl d s sdreq sdres) : Nat) := by
+  unfold Gen.Fn.pdu_snl_len
+  simp only [lenS]
+  rw [sum_map_len]
+  simp only [PyFn.len_eq, sdresI, List.length_map]
+  omega
+
+/-- `for e in encoded: data += struct.pack('!H', len(e)) + e` -/
+theorem forM_agf (es : List Bytes) : ∀ data : Bytes,
+    PyFn.forM es data (fun d e => PyFn.pack [.Hbe] [PyFn.len e] >>= fun t => Except.ok (d ++ (t ++ e)))
+      = (agfJoin es >>= fun body => Except.ok (data ++ body)) := by
+  induction es with
+  | nil => intro data; simp [PyFn.forM, agfJoin]
+  | cons e t ih =>
+    intro data
+    simp only [PyFn.forM, agfJoin]
+    have hp : PyFn.pack [.Hbe] [PyFn.len e] = if e.length > 65535 then .error .struct else .ok [e.length / 256, e.length % 256] := by
+      rw [PyFn.len_eq, pack_Hbe]
+    rw [hp]
+    by_cases h : e.length > 65535
+    · simp [h]
+    · simp only [h, if_false, Py.bind_ok, Py.pure_eq]
+      rw [ih]
+      cases agfJoin t with
+      | error x => rfl
+      | ok r => simp
+
+/-- `AggregatedFrame.encode` given the encodings of the aggregated PDUs -/
+theorem agf_encode_bridge (d s : Nat) (es : List Bytes) :
+    Gen.Fn.pdu_agf_encode 2 d s es
+      = (if d ≠ 0 ∨ s ≠ 0 then .error .encodeError else
+          encodeHeader 2 d s >>= fun h => agfJoin es >>= fun body => pure (h ++ body)) := by
+  unfold Gen.Fn.pdu_agf_encode
+  have hh := encode_header_bridge 2 d s
+  simp only [show ((2 : Nat) : Int) = 2 from rfl] at hh
+  rw [hh]
+  by_cases h0 : (d ≠ 0 ∨ s ≠ 0)
+  · have : ((d : Int) ≠ 0 ∨ (s : Int) ≠ 0) := by omega
+    simp [h0, this]
+  · have : ¬ ((d : Int) ≠ 0 ∨ (s : Int) ≠ 0) := by omega
+    simp only [h0, this, if_false]
+    cases encodeHeader 2 d s with
+    | error e => rfl
+    | ok h => simp only [Py.bind_ok]; rw [forM_agf]; simp [bind_assoc]
+
+/-- with the encodings the model computes, this is `Impl.encode` of the aggregate -/
+theorem agf_encode_model (d s : Nat) (items : List SPdu) (es : List Bytes) (h : encodeAll items = .ok es) :
+    Gen.Fn.pdu_agf_encode 2 d s es = Impl.encode (.agf d s items) := by
+  rw [agf_encode_bridge]
+  simp only [Impl.encode, h, Py.bind_ok]
+  by_cases h0 : (d ≠ 0 ∨ s ≠ 0) <;> simp [h0]
+
+
+/-! ## PAX, CONNECT, CC, DPS: `decode` (the `while size >= 2` TLV loops)
+
+The generated loops take `fuel`; `size ≤ fuel` suffices (every iteration consumes at least two octets).  The record
+under construction has dynamically typed fields (`PyFn.Val`: whatever `Parameter.decode` returned); `connOf`, `ccOf`,
+`paxOf`, `dpsOf` read it back as the model's PDU (`TypeError` for a field of an unexpected type - excluded by
+`paramDecode_wt`).  Not translated: `ServiceNameLookup.decode` (appends to a list attribute of the object) and
+`AggregatedFrame.decode` (recursive dynamic dispatch). -/
+
+/-- what `Parameter.decode` guarantees about the type of the value it returns for a TLV type -/
+def WT (t : Nat) (v : TlvV) : Prop :=
+  if t = 1 ∨ t = 2 ∨ t = 3 ∨ t = 4 ∨ t = 5 ∨ t = 7 then ∃ x, v = .num x
+  else if t = 8 then ∃ a b, v = .sdreq a b
+  else if t = 9 then ∃ a b, v = .sdres a b
+  else ∃ x, v = .raw x
+
+theorem paramDecode_wt (d : Bytes) (off t l : Nat) (v : TlvV) (h : paramDecode d off = .ok (t, l, v)) : WT t v := by
+  rw [paramDecode_eq] at h
+  cases hr : paramRaw d off with
+  | error e => rw [hr] at h; cases h
+  | ok p =>
+    obtain ⟨t0, l0, v0⟩ := p
+    rw [hr] at h
+    simp only [Py.bind_ok] at h
+    unfold WT
+    repeat' split at h
+    all_goals first
+      | cases h
+      | (simp only [Py.throw_eq] at h; cases h)
+      | skip
+    all_goals try (
+      simp only [Py.bind_eq_ok, Py.pure_eq, Except.ok.injEq, Prod.mk.injEq] at h
+      first
+        | (rcases h with ⟨a, -, rfl, rfl, rfl⟩; simp_all)
+        | (rcases h with ⟨a, -, b, -, rfl, rfl, rfl⟩; simp_all)
+        | (rcases h with ⟨⟨a, b⟩, -, rfl, rfl, rfl⟩; simp_all)
+        | (rcases h with ⟨rfl, rfl, rfl⟩; simp_all))
+    all_goals simp_all
+/-- The `while size >= 2: T, L, V = Parameter.decode(data, offset); <update>; offset, size = offset + 2 + L, size - 2 - L`
+loop of the generated decoders against `tlvLoop` of the model.  `C`/`B` are the condition and body lambdas of
+the generated `whileM` (`hC`, `hB` say what they compute), `upd` the class specific update of the record under
+construction, `R` relates that record with the model's loop state.  The Python `size` may become negative
+(`z`), the model's is truncated at 0 - both end the loop. -/
+theorem tlv_sim {ρ σ' : Type} (d : Bytes) (hd : IsBytes d)
+    (C : ρ × Int × Int → Py Bool) (B : ρ × Int × Int → Py (ρ × Int × Int))
+    (upd : ρ → Int → Int → Val → Py ρ) (app : σ' → Nat → TlvV → σ') (R : ρ → σ' → Prop)
+    (hC : ∀ r o z, C (r, o, z) = .ok (decide (z ≥ 2)))
+    (hB : ∀ r o z, B (r, o, z) = (Gen.Fn.pdu_param_decode d o >>= fun t =>
+      upd r t.1 t.2.1 t.2.2 >>= fun r' => Except.ok (r', o + 2 + t.2.1, z - 2 - t.2.1)))
+    (hupd : ∀ r st (t l : Nat) (v : TlvV), WT t v → R r st → ∃ r', upd r t l (encV v) = .ok r' ∧ R r' (app st t v)) :
+    ∀ (fuel F off size : Nat) (z : Int) (r : ρ) (st : σ'),
+      size ≤ fuel → fuel < F → R r st → ((z < 2 ∧ size < 2) ∨ z = size) →
+      match tlvLoop app fuel d off size st with
+      | .error e => PyFn.whileM F (r, (off : Int), z) C B = .error e
+      | .ok st' => ∃ r' o' z', PyFn.whileM F (r, (off : Int), z) C B = .ok (r', o', z') ∧ R r' st' := by
+  intro fuel
+  induction fuel with
+  | zero =>
+    intro F off size z r st hsf hF hR hz
+    have hs : size < 2 := by omega
+    rw [tlvLoop_done _ _ _ _ _ _ hs]
+    obtain ⟨F', rfl⟩ : ∃ F', F = F' + 1 := ⟨F - 1, by omega⟩
+    have hz2 : ¬ z ≥ 2 := by rcases hz with h | h <;> omega
+    refine ⟨r, off, z, ?_, hR⟩
+    simp [PyFn.whileM, hC, hz2]
+  | succ n ih =>
+    intro F off size z r st hsf hF hR hz
+    obtain ⟨F', rfl⟩ : ∃ F', F = F' + 1 := ⟨F - 1, by omega⟩
+    by_cases hs : size < 2
+    · rw [tlvLoop_done _ _ _ _ _ _ hs]
+      have hz2 : ¬ z ≥ 2 := by rcases hz with h | h <;> omega
+      refine ⟨r, off, z, ?_, hR⟩
+      simp [PyFn.whileM, hC, hz2]
+    · have hzz : z = size := by rcases hz with h | h; omega; exact h
+      have hz2 : z ≥ 2 := by omega
+      rw [tlvLoop_succ _ _ _ _ _ _ hs]
+      simp only [PyFn.whileM, hC, hz2, decide_true, hB]
+      rw [param_decode_bridge d hd off]
+      cases hp : paramDecode d off with
+      | error e => simp
+      | ok p =>
+        obtain ⟨t, l, v⟩ := p
+        simp only [Py.bind_ok]
+        obtain ⟨r', hr', hR'⟩ := hupd r st t l v (paramDecode_wt d off t l v hp) hR
+        rw [hr']
+        simp only [Py.bind_ok]
+        have e1 : (off : Int) + 2 + (l : Int) = ((off + 2 + l : Nat) : Int) := by omega
+        rw [e1]
+        have := ih F' (off + 2 + l) (size - 2 - l) (z - 2 - (l : Int)) r' (app st t v) (by omega) (by omega) hR' (by omega)
+        exact this
+
+/-- `tlv_sim` with continuations: usable with `refine`, which finds `C` and `B` in the goal -/
+theorem tlv_sim' {ρ σ' β : Type} (d : Bytes) (hd : IsBytes d)
+    (C : ρ × Int × Int → Py Bool) (B : ρ × Int × Int → Py (ρ × Int × Int))
+    (upd : ρ → Int → Int → Val → Py ρ) (app : σ' → Nat → TlvV → σ') (R : ρ → σ' → Prop)
+    (hC : ∀ r o z, C (r, o, z) = .ok (decide (z ≥ 2)))
+    (hB : ∀ r o z, B (r, o, z) = (Gen.Fn.pdu_param_decode d o >>= fun t =>
+      upd r t.1 t.2.1 t.2.2 >>= fun r' => Except.ok (r', o + 2 + t.2.1, z - 2 - t.2.1)))
+    (hupd : ∀ r st (t l : Nat) (v : TlvV), WT t v → R r st → ∃ r', upd r t l (encV v) = .ok r' ∧ R r' (app st t v))
+    (fuel F off size : Nat) (z o : Int) (r : ρ) (st : σ') (k : ρ × Int × Int → Py β) (k' : σ' → Py β)
+    (hsf : size ≤ fuel) (hF : fuel < F) (hR : R r st) (hz : z = size) (ho : o = off)
+    (hk : ∀ r' o' z' st', R r' st' → k (r', o', z') = k' st') :
+    (PyFn.whileM F (r, o, z) C B >>= k) = (tlvLoop app fuel d off size st >>= k') := by
+  subst ho
+  have := tlv_sim d hd C B upd app R hC hB hupd fuel F off size z r st hsf hF hR (Or.inr hz)
+  cases hl : tlvLoop app fuel d off size st with
+  | error e => rw [hl] at this; simp only [this]; rfl
+  | ok st' =>
+    rw [hl] at this
+    obtain ⟨r', o', z', hw, hR'⟩ := this
+    rw [hw]; exact hk r' o' z' st' hR'
+
+/-- `Connect(dsap, ssap)` under construction against the model's loop state -/
+def connR (a b : Nat) (r : Int × Int × Int × Val × Val) (st : ConnSt) : Prop :=
+  r = ((a : Int), (b : Int), (st.miu : Int), Val.int st.rw, (match st.sn with | none => Val.none | some x => Val.bytes x))
+
+/-- the decoded CONNECT record as the model's PDU -/
+def connOf (r : Int × Int × Int × Val × Val) : Py SPdu :=
+  match r.2.2.2.1, r.2.2.2.2 with
+  | .int rw, .none => .ok (.connect r.1.toNat r.2.1.toNat r.2.2.1.toNat rw.toNat none)
+  | .int rw, .bytes x => .ok (.connect r.1.toNat r.2.1.toNat r.2.2.1.toNat rw.toNat (some x))
+  | _, _ => .error .type_
+
+theorem connect_decode_bridge (d : Bytes) (hd : IsBytes d) (off size fuel : Nat) (hf : size ≤ fuel) :
+    (Gen.Fn.pdu_connect_decode fuel d off size >>= connOf) = decConnect d off size := by
+  unfold Gen.Fn.pdu_connect_decode decConnect
+  rw [decode_header_bridge]
+  cases hh : decodeHeader d off size with
+  | error e => rfl
+  | ok p =>
+    obtain ⟨a, b⟩ := p
+    have hs : 2 ≤ size := by
+      unfold decodeHeader at hh
+      by_cases h : size < 2
+      · simp [h] at hh
+      · omega
+    simp only [Py.bind_ok, i2]
+    simp only [bind_assoc]
+    refine tlv_sim' d hd _ _
+      (fun (r : Int × Int × Int × Val × Val) (T L : Int) (V : Val) =>
+        (if T = 2 then (PyFn.asInt V >>= fun t3 => Except.ok (r.1, r.2.1, 128 + t3, r.2.2.2.1, r.2.2.2.2))
+         else Except.ok (if T = 5 then (r.1, r.2.1, r.2.2.1, V, r.2.2.2.2)
+            else if T = 6 then (r.1, r.2.1, r.2.2.1, r.2.2.2.1, V) else r)))
+      connApp (connR a b) ?hC ?hB ?hupd (size - 2) fuel (off + 2) (size - 2) _ _ _ {} _ _ (by omega) (by omega) rfl
+      (by omega) (by omega) ?hk
+    case hC => intro r o z; rfl
+    case hB => intro r o z; rfl
+    case hupd =>
+      intro r st t l v hwt hR
+      unfold connR at hR
+      subst hR
+      unfold WT at hwt
+      by_cases h2 : t = 2
+      · subst h2
+        obtain ⟨x, rfl⟩ : ∃ x, v = .num x := by simpa using hwt
+        refine ⟨((a : Int), (b : Int), 128 + (x : Int), Val.int st.rw,
+          (match st.sn with | none => Val.none | some y => Val.bytes y)), ?_, ?_⟩
+        · simp [encV, PyFn.asInt]
+        · simp [connR, connApp]
+      · by_cases h5 : t = 5
+        · subst h5
+          obtain ⟨x, rfl⟩ : ∃ x, v = .num x := by simpa using hwt
+          exact ⟨((a : Int), (b : Int), (st.miu : Int), Val.int x,
+            (match st.sn with | none => Val.none | some y => Val.bytes y)), by simp [encV], by simp [connR, connApp]⟩
+        · by_cases h6 : t = 6
+          · subst h6
+            obtain ⟨x, rfl⟩ : ∃ x, v = .raw x := by simpa using hwt
+            exact ⟨((a : Int), (b : Int), (st.miu : Int), Val.int st.rw, Val.bytes x), by simp [encV], by simp [connR, connApp]⟩
+          · have e2 : ¬ ((t : Int) = 2) := by omega
+            have e5 : ¬ ((t : Int) = 5) := by omega
+            have e6 : ¬ ((t : Int) = 6) := by omega
+            refine ⟨((a : Int), (b : Int), (st.miu : Int), Val.int st.rw,
+              (match st.sn with | none => Val.none | some y => Val.bytes y)), by simp [e2, e5, e6], ?_⟩
+            have : connApp st t v = st := by
+              unfold connApp
+              split <;> first | rfl | (exfalso; omega) | skip
+              all_goals simp_all
+            rw [this]; rfl
+    case hk =>
+      intro r' o' z' st' hR
+      unfold connR at hR
+      subst hR
+      cases hsn : st'.sn <;> simp [connOf, hsn]
+
+/-! ### CC -/
+def ccR (a b : Nat) (r : Int × Int × Int × Val) (st : ConnSt) : Prop :=
+  r = ((a : Int), (b : Int), (st.miu : Int), Val.int st.rw)
+
+def ccOf (r : Int × Int × Int × Val) : Py SPdu :=
+  match r.2.2.2 with
+  | .int rw => .ok (.cc r.1.toNat r.2.1.toNat r.2.2.1.toNat rw.toNat)
+  | _ => .error .type_
+
+theorem cc_decode_bridge (d : Bytes) (hd : IsBytes d) (off size fuel : Nat) (hf : size ≤ fuel) :
+    (Gen.Fn.pdu_cc_decode fuel d off size >>= ccOf) = decCc d off size := by
+  unfold Gen.Fn.pdu_cc_decode decCc
+  rw [decode_header_bridge]
+  cases hh : decodeHeader d off size with
+  | error e => rfl
+  | ok p =>
+    obtain ⟨a, b⟩ := p
+    have hs : 2 ≤ size := by
+      unfold decodeHeader at hh
+      by_cases h : size < 2
+      · simp [h] at hh
+      · omega
+    simp only [Py.bind_ok, i2, bind_assoc]
+    refine tlv_sim' d hd _ _
+      (fun (r : Int × Int × Int × Val) (T L : Int) (V : Val) =>
+        (if T = 2 then (PyFn.asInt V >>= fun t3 => Except.ok (r.1, r.2.1, 128 + t3, r.2.2.2))
+         else Except.ok (if T = 5 then (r.1, r.2.1, r.2.2.1, V) else r)))
+      ccApp (ccR a b) ?hC ?hB ?hupd (size - 2) fuel (off + 2) (size - 2) _ _ _ {} _ _ (by omega) (by omega) rfl
+      (by omega) (by omega) ?hk
+    case hC => intro r o z; rfl
+    case hB => intro r o z; rfl
+    case hupd =>
+      intro r st t l v hwt hR
+      unfold ccR at hR
+      subst hR
+      unfold WT at hwt
+      by_cases h2 : t = 2
+      · subst h2
+        obtain ⟨x, rfl⟩ : ∃ x, v = .num x := by simpa using hwt
+        exact ⟨((a : Int), (b : Int), 128 + (x : Int), Val.int st.rw), by simp [encV, PyFn.asInt], by simp [ccR, ccApp]⟩
+      · by_cases h5 : t = 5
+        · subst h5
+          obtain ⟨x, rfl⟩ : ∃ x, v = .num x := by simpa using hwt
+          exact ⟨((a : Int), (b : Int), (st.miu : Int), Val.int x), by simp [encV], by simp [ccR, ccApp]⟩
+        · have e2 : ¬ ((t : Int) = 2) := by omega
+          have e5 : ¬ ((t : Int) = 5) := by omega
+          refine ⟨((a : Int), (b : Int), (st.miu : Int), Val.int st.rw), by simp [e2, e5], ?_⟩
+          have : ccApp st t v = st := by
+            unfold ccApp
+            split <;> first | rfl | (exfalso; omega) | skip
+            all_goals simp_all
+          rw [this]; rfl
+    case hk =>
+      intro r' o' z' st' hR
+      unfold ccR at hR
+      subst hR
+      simp [ccOf]
+
+/-! ### PAX, DPS: optional fields -/
+/-- an optional integer / octet string field of the model as the Python value (`None` or the value) -/
+def oe : Option Nat → Val
+  | none => .none
+  | some x => .int x
+def ob : Option Bytes → Val
+  | none => .none
+  | some x => .bytes x
+def vo : Val → Py (Option Nat)
+  | .none => .ok none
+  | .int i => .ok (some i.toNat)
+  | _ => .error .type_
+def vb : Val → Py (Option Bytes)
+  | .none => .ok none
+  | .bytes x => .ok (some x)
+  | _ => .error .type_
+theorem vo_oe (o : Option Nat) : vo (oe o) = .ok o := by cases o <;> simp [vo, oe]
+theorem vb_ob (o : Option Bytes) : vb (ob o) = .ok o := by cases o <;> simp [vb, ob]
+
+def dpsR (a b : Nat) (r : Int × Int × Val × Val) (st : DpsSt) : Prop :=
+  r = ((a : Int), (b : Int), ob st.ecpk, ob st.rn)
+def dpsOf (r : Int × Int × Val × Val) : Py SPdu :=
+  vb r.2.2.1 >>= fun e => vb r.2.2.2 >>= fun n => .ok (.dps r.1.toNat r.2.1.toNat e n)
+
+theorem dps_decode_bridge (d : Bytes) (hd : IsBytes d) (off size fuel : Nat) (hf : size ≤ fuel) :
+    (Gen.Fn.pdu_dps_decode fuel d off size >>= dpsOf) = decDps d off size := by
+  unfold Gen.Fn.pdu_dps_decode decDps
+  rw [decode_header_bridge]
+  cases hh : decodeHeader d off size with
+  | error e => rfl
+  | ok p =>
+    obtain ⟨a, b⟩ := p
+    have hs : 2 ≤ size := by
+      unfold decodeHeader at hh
+      by_cases h : size < 2
+      · simp [h] at hh
+      · omega
+    simp only [Py.bind_ok, i2]
+    by_cases h0 : (a ≠ 0 ∨ b ≠ 0)
+    · have : ((a : Int) ≠ 0 ∨ (b : Int) ≠ 0) := by omega
+      simp [h0, this]
+    · have h0' : ¬ ((a : Int) ≠ 0 ∨ (b : Int) ≠ 0) := by omega
+      simp only [h0, h0', if_false, bind_assoc]
+      refine tlv_sim' d hd _ _
+        (fun (r : Int × Int × Val × Val) (T L : Int) (V : Val) =>
+          Except.ok (if T = 10 then (r.1, r.2.1, V, r.2.2.2) else if T = 11 then (r.1, r.2.1, r.2.2.1, V) else r))
+        dpsApp (dpsR a b) ?hC ?hB ?hupd (size - 2) fuel (off + 2) (size - 2) _ _ _ {} _ _ (by omega) (by omega) rfl
+        (by omega) (by omega) ?hk
+      case hC => intro r o z; rfl
+      case hB => intro r o z; rfl
+      case hupd =>
+        intro r st t l v hwt hR
+        unfold dpsR at hR
+        subst hR
+        unfold WT at hwt
+        by_cases h10 : t = 10
+        · subst h10
+          obtain ⟨x, rfl⟩ : ∃ x, v = .raw x := by simpa using hwt
+          exact ⟨((a : Int), (b : Int), Val.bytes x, ob st.rn), by simp [encV], by simp [dpsR, dpsApp, ob]⟩
+        · by_cases h11 : t = 11
+          · subst h11
+            obtain ⟨x, rfl⟩ : ∃ x, v = .raw x := by simpa using hwt
+            exact ⟨((a : Int), (b : Int), ob st.ecpk, Val.bytes x), by simp [encV], by simp [dpsR, dpsApp, ob]⟩
+          · have e10 : ¬ ((t : Int) = 10) := by omega
+            have e11 : ¬ ((t : Int) = 11) := by omega
+            refine ⟨((a : Int), (b : Int), ob st.ecpk, ob st.rn), by simp [e10, e11], ?_⟩
+            have : dpsApp st t v = st := by
+              unfold dpsApp
+              split <;> first | rfl | (exfalso; omega) | skip
+              all_goals simp_all
+            rw [this]; rfl
+      case hk =>
+        intro r' o' z' st' hR
+        unfold dpsR at hR
+        subst hR
+        simp [dpsOf, vb_ob]
+
+
+def paxR (a b : Nat) (r : Int × Int × Val × Val × Val × Val × Val) (st : PaxSt) : Prop :=
+  r = ((a : Int), (b : Int), oe st.version, oe st.miux, oe st.wks, oe st.lto, oe st.opt)
+def paxOf (r : Int × Int × Val × Val × Val × Val × Val) : Py SPdu :=
+  vo r.2.2.1 >>= fun v => vo r.2.2.2.1 >>= fun m => vo r.2.2.2.2.1 >>= fun w => vo r.2.2.2.2.2.1 >>= fun l =>
+  vo r.2.2.2.2.2.2 >>= fun o => .ok (.pax r.1.toNat r.2.1.toNat v m w l o)
+
+theorem pax_decode_bridge (d : Bytes) (hd : IsBytes d) (off size fuel : Nat) (hf : size ≤ fuel) :
+    (Gen.Fn.pdu_pax_decode fuel d off size >>= paxOf) = decPax d off size := by
+  unfold Gen.Fn.pdu_pax_decode decPax
+  rw [decode_header_bridge]
+  cases hh : decodeHeader d off size with
+  | error e => rfl
+  | ok p =>
+    obtain ⟨a, b⟩ := p
+    have hs : 2 ≤ size := by
+      unfold decodeHeader at hh
+      by_cases h : size < 2
+      · simp [h] at hh
+      · omega
+    simp only [Py.bind_ok, i2]
+    by_cases h0 : (a ≠ 0 ∨ b ≠ 0)
+    · have : ((a : Int) ≠ 0 ∨ (b : Int) ≠ 0) := by omega
+      simp [h0, this]
+    · have h0' : ¬ ((a : Int) ≠ 0 ∨ (b : Int) ≠ 0) := by omega
+      simp only [h0, h0', if_false, bind_assoc]
+      refine tlv_sim' d hd _ _
+        (fun (r : Int × Int × Val × Val × Val × Val × Val) (T L : Int) (V : Val) =>
+          Except.ok (if T = 1 then (r.1, r.2.1, V, r.2.2.2.1, r.2.2.2.2.1, r.2.2.2.2.2.1, r.2.2.2.2.2.2)
+            else if T = 2 then (r.1, r.2.1, r.2.2.1, V, r.2.2.2.2.1, r.2.2.2.2.2.1, r.2.2.2.2.2.2)
+            else if T = 3 then (r.1, r.2.1, r.2.2.1, r.2.2.2.1, V, r.2.2.2.2.2.1, r.2.2.2.2.2.2)
+            else if T = 4 then (r.1, r.2.1, r.2.2.1, r.2.2.2.1, r.2.2.2.2.1, V, r.2.2.2.2.2.2)
+            else if T = 7 then (r.1, r.2.1, r.2.2.1, r.2.2.2.1, r.2.2.2.2.1, r.2.2.2.2.2.1, V) else r))
+        paxApp (paxR a b) ?hC ?hB ?hupd (size - 2) fuel (off + 2) (size - 2) _ _ _ {} _ _ (by omega) (by omega) rfl
+        (by omega) (by omega) ?hk
+      case hC => intro r o z; rfl
+      case hB => intro r o z; rfl
+      case hupd =>
+        intro r st t l v hwt hR
+        unfold paxR at hR
+        subst hR
+        unfold WT at hwt
+        have cls : t = 1 ∨ t = 2 ∨ t = 3 ∨ t = 4 ∨ t = 7 ∨ (t ≠ 1 ∧ t ≠ 2 ∧ t ≠ 3 ∧ t ≠ 4 ∧ t ≠ 7) := by omega
+        rcases cls with rfl | rfl | rfl | rfl | rfl | hne
+        · obtain ⟨x, rfl⟩ : ∃ x, v = .num x := by simpa using hwt
+          exact ⟨_, rfl, by simp [paxR, paxApp, oe, encV]⟩
+        · obtain ⟨x, rfl⟩ : ∃ x, v = .num x := by simpa using hwt
+          exact ⟨_, rfl, by simp [paxR, paxApp, oe, encV]⟩
+        · obtain ⟨x, rfl⟩ : ∃ x, v = .num x := by simpa using hwt
+          exact ⟨_, rfl, by simp [paxR, paxApp, oe, encV]⟩
+        · obtain ⟨x, rfl⟩ : ∃ x, v = .num x := by simpa using hwt
+          exact ⟨_, rfl, by simp [paxR, paxApp, oe, encV]⟩
+        · obtain ⟨x, rfl⟩ : ∃ x, v = .num x := by simpa using hwt
+          exact ⟨_, rfl, by simp [paxR, paxApp, oe, encV]⟩
+        · obtain ⟨n1, n2, n3, n4, n7⟩ := hne
+          have e1 : ¬ ((t : Int) = 1) := by omega
+          have e2 : ¬ ((t : Int) = 2) := by omega
+          have e3 : ¬ ((t : Int) = 3) := by omega
+          have e4 : ¬ ((t : Int) = 4) := by omega
+          have e7 : ¬ ((t : Int) = 7) := by omega
+          refine ⟨((a : Int), (b : Int), oe st.version, oe st.miux, oe st.wks, oe st.lto, oe st.opt), by simp [e1, e2, e3, e4, e7], ?_⟩
+          have : paxApp st t v = st := by
+            unfold paxApp
+            split <;> first | rfl | (exfalso; omega) | skip
+            all_goals simp_all
+          rw [this]; rfl
+      case hk =>
+        intro r' o' z' st' hR
+        unfold paxR at hR
+        subst hR
+        simp [paxOf, vo_oe]
+
+
 /-! ## property statements for the regenerated functions -/
 
 /-- C07/C11 `paramDecode_safe` for the source: on every octet string `Parameter.decode` raises nothing but `DecodeError` -/
